@@ -310,7 +310,7 @@ func ReportKnown(id string) {
 // reproduces -> violation.
 func Witness(t *testing.T, id string, reproduces bool, detail string) {
 	t.Helper()
-	if !reproduces {
+	if !reproduces || Skip() {
 		return
 	}
 	if Known(id) {
@@ -375,8 +375,8 @@ func Register[C any](p Prop[C]) {
 func Run[C any](t *testing.T, p Prop[C]) {
 	t.Helper()
 	Register(p)
-	if ReplayPath != "" {
-		t.Skip("replay mode")
+	if Skip() {
+		t.Skip("replay or peer mode")
 	}
 	n := N(p.Quick, p.Thorough)
 	S.SetRule(p.Name, p.Rule)
@@ -512,7 +512,7 @@ func Enumerate[C any](t *testing.T, name, rule string, exhaustive bool, each fun
 		return safeCheck(check, c)
 	}
 	registryMu.Unlock()
-	if ReplayPath != "" {
+	if Skip() {
 		return
 	}
 	S.SetRule(name, rule)
